@@ -41,6 +41,16 @@ func NewFileBoard(log []storage.Message) (*FileBoard, error) {
 			f.Close()
 			return nil, err
 		}
+		if m.Signature == nil {
+			// a row written by somebody who never signed it: the key is not there at all
+			var row map[string]json.RawMessage
+			if json.Unmarshal(bz, &row) == nil {
+				delete(row, "signature")
+				if b2, err := json.Marshal(row); err == nil {
+					bz = b2
+				}
+			}
+		}
 		bw.Write(bz)
 		bw.WriteByte('\n')
 	}
